@@ -190,6 +190,333 @@ def _lstr(s):
     return '"' + s.replace("\\", "\\\\").replace('"', '\\"') + '"'
 
 
+# ------------------------------------------------------------------ structural extraction (pass 7/8)
+# Private functions are found by WHAT THEY CONTAIN (a string constant of the file format, a public name they call, the
+# shape of an expression), never by their private name; locals, comments, docstrings, messages and formatting are
+# irrelevant.  What is pinned are literals, operators, orders, defaults and exception classes.
+def _strip_text(tree):
+    """drop docstrings and the message arguments of raise / warnings.warn: wording is not pinned"""
+    for n in ast.walk(tree):
+        if isinstance(n, (ast.FunctionDef, ast.ClassDef, ast.Module)) and n.body and isinstance(n.body[0], ast.Expr) \
+                and isinstance(n.body[0].value, ast.Constant) and isinstance(n.body[0].value.value, str):
+            n.body = n.body[1:] or [ast.Pass()]
+        if isinstance(n, ast.Raise) and isinstance(n.exc, ast.Call):
+            n.exc.args, n.exc.keywords = [], []
+        if isinstance(n, ast.Call) and isinstance(n.func, ast.Attribute) and n.func.attr == "warn" and n.args:
+            n.args = n.args[1:]
+    return tree
+
+
+def _consts(node):
+    return [n.value for n in ast.walk(node) if isinstance(n, ast.Constant) and isinstance(n.value, str)]
+
+
+def _rhs(node):
+    """right-hand side of a pinned comparison, without local names"""
+    if isinstance(node, ast.Constant):
+        return repr(node.value)
+    if isinstance(node, ast.Attribute):
+        return node.attr
+    if isinstance(node, ast.Name):
+        return node.id if node.id.isupper() else "<var>"
+    return "<expr>"
+
+
+def _funcs(tree):
+    return [n for n in tree.body if isinstance(n, ast.FunctionDef)]
+
+
+def _find_func(tree, what, pred):
+    """public functions are addressed by name, private helpers (leading underscore) by content"""
+    hits = [f for f in _funcs(tree) if pred(f)]
+    if len(hits) > 1:
+        hits = [f for f in hits if f.name.startswith("_")] or hits
+    if len(hits) != 1:
+        raise ValueError(f"structural extractor: expected exactly one function for '{what}', found {[f.name for f in hits]}")
+    return hits[0]
+
+
+def _raises(fn):
+    """exception classes a function raises (sorted set: neither the wording nor the number of `raise` statements is pinned)"""
+    return sorted(set(_raises_list(fn)))
+
+
+def _raises_list(fn):
+    out = []
+    for n in ast.walk(fn):
+        if isinstance(n, ast.Raise) and n.exc is not None:
+            e = n.exc.func if isinstance(n.exc, ast.Call) else n.exc
+            out.append(e.id if isinstance(e, ast.Name) else getattr(e, "attr", "?"))
+    return out
+
+
+def _defaults(fn):
+    args = fn.args.args
+    ds = fn.args.defaults
+    out = []
+    for a, d in zip(args[len(args) - len(ds):], ds):
+        out.append((a.arg, ast.unparse(d)))
+    return out
+
+
+def _cmpop(op):
+    return type(op).__name__
+
+
+def _subscript_keys_assigned(fn):
+    """`<var>["key"] = ...` in source order, variables numbered by first use (alpha-normalised)."""
+    names, out = {}, []
+    for n in ast.walk(fn):
+        pass
+    for st in _stmts(fn):
+        if isinstance(st, ast.Assign):
+            for t in st.targets:
+                if isinstance(t, ast.Subscript) and isinstance(t.value, ast.Name) and isinstance(t.slice, ast.Constant) and isinstance(t.slice.value, str):
+                    v = names.setdefault(t.value.id, len(names))
+                    out.append((v, t.slice.value))
+    return out
+
+
+def _stmts(fn):
+    """all statements of a function in source order"""
+    out = []
+
+    def rec(body):
+        for st in body:
+            out.append(st)
+            for fld in ("body", "orelse", "finalbody"):
+                if hasattr(st, fld):
+                    rec(getattr(st, fld))
+            if isinstance(st, ast.Try):
+                for h in st.handlers:
+                    rec(h.body)
+    rec(fn.body)
+    return out
+
+
+def _called_names(fn):
+    return {n.func.id for n in ast.walk(fn) if isinstance(n, ast.Call) and isinstance(n.func, ast.Name)}
+
+
+def extract_convert(src):
+    """Facts of structure/io/pdbx/convert.py + the (current) names of the private helpers the adapter needs."""
+    tree = _strip_text(ast.parse(src))
+    F = {}
+    helpers = {}
+    get_s = _find_func(tree, "get_structure", lambda f: f.name == "get_structure")
+    set_s = _find_func(tree, "set_structure", lambda f: f.name == "set_structure")
+    get_mc = _find_func(tree, "get_model_count", lambda f: f.name == "get_model_count")
+    F["defaults.get_structure"] = _defaults(get_s)
+    F["defaults.set_structure"] = _defaults(set_s)
+    F["defaults.get_model_count"] = _defaults(get_mc)
+    F["raises.get_structure"] = _raises(get_s)
+    F["raises.set_structure"] = _raises(set_s)
+    # the threshold switch between the two matchers
+    thr = [n for n in tree.body if isinstance(n, ast.Assign) and getattr(n.targets[0], "id", None) == "FIND_MATCHES_SWITCH_THRESHOLD"]
+    if len(thr) != 1 or not isinstance(thr[0].value, ast.Constant):
+        raise ValueError("FIND_MATCHES_SWITCH_THRESHOLD literal not found")
+    F["find.threshold"] = int(thr[0].value.value)
+    sw = _find_func(tree, "matcher switch", lambda f: any(isinstance(n, ast.Name) and n.id == "FIND_MATCHES_SWITCH_THRESHOLD" for n in ast.walk(f)))
+    cmp_ = [n for n in ast.walk(sw) if isinstance(n, ast.Compare) and any(isinstance(x, ast.Name) and x.id == "FIND_MATCHES_SWITCH_THRESHOLD" for x in ast.walk(n))]
+    if len(cmp_) != 1 or len(cmp_[0].ops) != 1:
+        raise ValueError("matcher switch: comparison with the threshold not found")
+    thr_left = any(isinstance(x, ast.Name) and x.id == "FIND_MATCHES_SWITCH_THRESHOLD" for x in ast.walk(cmp_[0].left))
+    op = _cmpop(cmp_[0].ops[0])
+    # normalise to the form  <row pairs> OP threshold
+    if thr_left:
+        op = {"Lt": "Gt", "LtE": "GtE", "Gt": "Lt", "GtE": "LtE"}.get(op, op)
+    called = [n.func.id for n in ast.walk(sw) if isinstance(n, ast.Call) and isinstance(n.func, ast.Name)]
+    cand = [c for c in dict.fromkeys(called) if any(f.name == c for f in _funcs(tree))]
+    if len(cand) != 2:
+        raise ValueError(f"matcher switch: expected two matcher helpers, found {cand}")
+
+    def kind(name):
+        f = next(f for f in _funcs(tree) if f.name == name)
+        return "dict" if any(isinstance(n, ast.Dict) for n in ast.walk(f)) else "dense"
+    kinds = {kind(c): c for c in cand}
+    if set(kinds) != {"dense", "dict"}:
+        raise ValueError("matcher switch: cannot tell the dense from the dictionary matcher")
+    helpers["dense"], helpers["dict"] = kinds["dense"], kinds["dict"]
+    # canonical form of the switch: which matcher serves the LOW side (few row pairs) and to which side the
+    # boundary  pairs == threshold  belongs - independent of if/else vs early return and of `<=` vs inverted `>`
+    if_ = [n for n in ast.walk(sw) if isinstance(n, ast.If) and (n.test is cmp_[0] or (isinstance(n.test, ast.UnaryOp) and isinstance(n.test.op, ast.Not) and n.test.operand is cmp_[0]))]
+    if len(if_) != 1:
+        raise ValueError("matcher switch: `if` on the threshold comparison not found")
+    negated = if_[0].test is not cmp_[0]
+    in_body = [n.func.id for n in ast.walk(ast.Module(body=if_[0].body, type_ignores=[])) if isinstance(n, ast.Call) and isinstance(n.func, ast.Name) and n.func.id in cand]
+    if len(set(in_body)) != 1:
+        raise ValueError("matcher switch: the branch of the threshold comparison does not call exactly one matcher")
+    body_kind = "dense" if in_body[0] == kinds["dense"] else "dict"
+    other_kind = "dict" if body_kind == "dense" else "dense"
+    if negated:
+        op = {"Lt": "GtE", "LtE": "Gt", "Gt": "LtE", "GtE": "Lt"}.get(op, op)
+    if op not in ("Lt", "LtE", "Gt", "GtE"):
+        raise ValueError("matcher switch: comparison operator is not an ordering")
+    low = body_kind if op in ("Lt", "LtE") else other_kind
+    boundary = "low" if op in ("LtE", "Gt") else "high"
+    op, when_true = "low=" + low, "boundary=" + boundary
+    F["find.switch"] = [op, when_true]
+    F["raises.matchers"] = ["dense:" + ",".join(_raises(next(f for f in _funcs(tree) if f.name == kinds["dense"]))),
+                            "dict:" + ",".join(_raises(next(f for f in _funcs(tree) if f.name == kinds["dict"])))]
+    # writers
+    w_inter = _find_func(tree, "struct_conn writer", lambda f: ("conn_type_id", ) and any(k == "conn_type_id" for _v, k in _subscript_keys_assigned(f)))
+    w_intra = _find_func(tree, "chem_comp_bond writer", lambda f: any(k == "pdbx_aromatic_flag" for _v, k in _subscript_keys_assigned(f)))
+    F["columns.atom_site+cell"] = [f"{v}:{k}" for v, k in _subscript_keys_assigned(set_s)]
+    F["columns.struct_conn"] = [k for _v, k in _subscript_keys_assigned(w_inter)]
+    F["columns.chem_comp_bond"] = [k for _v, k in _subscript_keys_assigned(w_intra)]
+    F["raises.chem_comp_bond_writer"] = _raises(w_intra)
+    helpers["order_masked"] = [[e.attr for e in c.args[1].elts] for c in ast.walk(w_inter)
+                               if isinstance(c, ast.Call) and getattr(c.func, "attr", None) == "isin" and isinstance(c.args[1], ast.Tuple)]
+    lists = [n.value for n in ast.walk(w_inter) if isinstance(n, ast.Assign) and isinstance(n.value, ast.List) and all(isinstance(e, ast.Constant) for e in n.value.elts)]
+    F["struct_conn.written_key_columns"] = [e.value for e in lists[0].elts] if lists else []
+    # readers
+    r_inter = _find_func(tree, "struct_conn reader", lambda f: "1_555" in _consts(f))
+    lists = [n.value for n in ast.walk(r_inter) if isinstance(n, ast.Assign) and isinstance(n.value, ast.List) and all(isinstance(e, ast.Constant) for e in n.value.elts)]
+    F["struct_conn.matched_columns"] = [e.value for e in lists[0].elts] if lists else []
+    F["struct_conn.read_columns"] = sorted({c for c in _consts(r_inter) if c in ("conn_type_id", "ptnr1_symmetry", "ptnr2_symmetry", "pdbx_value_order", "1_555", "?", ".")})
+    F["struct_conn.order_case"] = sorted({n.func.attr for n in ast.walk(r_inter) if isinstance(n, ast.Call) and isinstance(n.func, ast.Attribute) and n.func.attr in ("lower", "upper")})
+    r_intra = _find_func(tree, "chem_comp_bond reader", lambda f: "value_order" in _consts(f) and "pdbx_aromatic_flag" in _consts(f) and not any(k == "pdbx_aromatic_flag" for _v, k in _subscript_keys_assigned(f)) and f.name not in ("get_component", "set_component"))
+    F["chem_comp_bond.read_columns"] = [c for c in _consts(r_intra) if c in ("comp_id", "atom_id_1", "atom_id_2", "value_order", "pdbx_aromatic_flag")]
+    F["chem_comp_bond.order_case"] = sorted({n.func.attr for n in ast.walk(r_intra) if isinstance(n, ast.Call) and isinstance(n.func, ast.Attribute) and n.func.attr in ("lower", "upper")})
+    colname = _find_func(tree, "struct_conn column naming", lambda f: any(isinstance(n, ast.JoinedStr) for n in ast.walk(f)) and "label_alt_id" in _consts(f) and len(f.args.args) == 2 and "pdbx_" in _consts(f))
+    F["struct_conn.colname_consts"] = [c for c in _consts(colname)]
+    # annotations
+    fill = _find_func(tree, "annotation reader", lambda f: "HETATM" in _consts(f) and f.name != "set_structure" and "group_PDB" in _consts(f) and not any(k == "group_PDB" for _v, k in _subscript_keys_assigned(f)))
+    as_array_calls = []
+    for n in ast.walk(fill):
+        if isinstance(n, ast.Call) and isinstance(n.func, ast.Attribute) and n.func.attr == "as_array":
+            as_array_calls.append(",".join(ast.unparse(a) for a in n.args))
+    F["reader.as_array_args"] = as_array_calls
+    F["reader.consts"] = [c for c in _consts(fill) if c in ("HETATM", "group_PDB", "type_symbol", "pdbx_PDB_ins_code", "id", "B_iso_or_equiv", "occupancy", "pdbx_formal_charge", "atom_id", "b_factor", "charge")]
+    # altloc policy dispatcher
+    alt = _find_func(tree, "altloc dispatcher", lambda f: {"occupancy", "first", "all"} <= set(_consts(f)) and f.name != "get_structure" and f.name != "get_assembly")
+    F["altloc.options"] = sorted({n.comparators[0].value for n in ast.walk(alt) if isinstance(n, ast.Compare) and isinstance(n.ops[0], ast.Eq)
+                                  and isinstance(n.comparators[0], ast.Constant) and isinstance(n.comparators[0].value, str)})
+    F["altloc.columns"] = sorted({c for c in _consts(alt) if c in ("label_alt_id", "occupancy", "altloc_id")})
+    F["raises.altloc"] = _raises(alt)
+    # bond split and canonical link filter
+    split = _find_func(tree, "bond split", lambda f: {"intra", "inter"} <= set(_consts(f)) and any(isinstance(n, ast.Attribute) and n.attr == "COORDINATION" for n in ast.walk(f)) and len(f.args.args) == 2)
+    F["bond_split.ops"] = [_cmpop(n.ops[0]) + ":" + _rhs(n.comparators[0]) for n in ast.walk(split) if isinstance(n, ast.Compare) and not isinstance(n.comparators[0], ast.Constant)]
+
+    def is_canon(f):
+        rets = [c for c in ast.walk(f) if isinstance(c, ast.Return) and c.value is not None]
+        if not rets:
+            return False
+        r = rets[-1].value
+        while isinstance(r, ast.BinOp) and isinstance(r.op, ast.BitAnd):
+            r = r.left
+        return isinstance(r, ast.BinOp) and isinstance(r.op, ast.BitOr) and isinstance(r.left, ast.Name)
+    canon = _find_func(tree, "canonical link filter", is_canon)
+    helpers["canon"] = canon.name
+    ret = [c for c in ast.walk(canon) if isinstance(c, ast.Return)][-1].value
+    terms = []
+
+    def flat(e):
+        if isinstance(e, ast.BinOp) and isinstance(e.op, ast.BitAnd):
+            flat(e.left)
+            flat(e.right)
+        else:
+            terms.append(e)
+    flat(ret)
+    F["canon.compare_terms"] = [_cmpop(t.ops[0]) + ":" + _rhs(t.comparators[0]) for t in terms if isinstance(t, ast.Compare)]
+    F["canon.shape"] = ["and-chain" if isinstance(ret, ast.BinOp) and isinstance(ret.op, ast.BitAnd) else type(ret).__name__, str(len(terms))]
+    # the two kinds: which imported canonical list (resolved through the import alias) and which atom pair
+    alias = {}
+    for n in tree.body:
+        if isinstance(n, ast.ImportFrom):
+            for a in n.names:
+                alias[a.asname or a.name] = a.name
+    first = terms[0]
+    assigned = {a.targets[0].id: a.value for a in ast.walk(canon) if isinstance(a, ast.Assign) and isinstance(a.targets[0], ast.Name)}
+    kinds_ = []
+    for nm in (first.left.id, first.right.id):
+        parts = []
+
+        def flat2(e):
+            if isinstance(e, ast.BinOp) and isinstance(e.op, ast.BitAnd):
+                flat2(e.left)
+                flat2(e.right)
+            else:
+                parts.append(e)
+        flat2(assigned[nm])
+        lst = [p.args[1].id for p in parts if isinstance(p, ast.Call) and getattr(p.func, "attr", None) == "isin" and isinstance(p.args[1], ast.Name)]
+        cs = [p.comparators[0].value for p in parts if isinstance(p, ast.Compare) and isinstance(p.comparators[0], ast.Constant)]
+        if len(parts) != 4 or len(lst) != 2 or len(set(lst)) != 1 or len(cs) != 2:
+            raise ValueError("canonical link filter: unexpected shape of a link kind")
+        kinds_.append((alias.get(lst[0], lst[0]), cs[0], cs[1]))
+    helpers["canon_kinds"] = kinds_
+    # empty-structure check
+    chk = _find_func(tree, "non-empty check", lambda f: {"BadStructureError", "ValueError"} <= set(_raises(f)) and len(f.args.args) == 1
+                     and any(isinstance(n, ast.Call) and getattr(n.func, "id", None) == "isinstance" for n in ast.walk(f)))
+    F["raises.non_empty_check"] = _raises(chk)
+    # model selection
+    fm = _find_func(tree, "model filter", lambda f: "pdbx_PDB_model_num" in _consts(f) and len(f.args.args) == 2 and f.name not in ("get_structure", "get_model_count", "get_assembly") and any(isinstance(n, ast.Attribute) and n.attr == "unique" for n in ast.walk(f)))
+    F["model_filter.calls"] = [n.func.attr for n in ast.walk(fm) if isinstance(n, ast.Call) and isinstance(n.func, ast.Attribute) and n.func.attr in ("unique", "sort", "as_array")]
+    F["model_filter.ops"] = [_cmpop(n.ops[0]) for n in ast.walk(fm) if isinstance(n, ast.Compare)] + \
+        [type(n.op).__name__ + ":" + ast.unparse(n.right) for n in ast.walk(fm) if isinstance(n, ast.BinOp) and isinstance(n.right, ast.Constant)]
+    F["get_structure.model_guards"] = [_cmpop(n.ops[0]) + ":" + _rhs(n.comparators[0]) for n in ast.walk(get_s)
+                                       if isinstance(n, ast.Compare) and isinstance(n.left, ast.Name) and n.left.id == get_s.args.args[1].arg]
+    # reserved names
+    lists = [n.value for n in ast.walk(set_s) if isinstance(n, ast.Assign) and isinstance(n.value, ast.List) and n.value.elts and all(isinstance(e, ast.Constant) and isinstance(e.value, str) for e in n.value.elts)]
+    F["set_structure.name_lists"] = [[e.value for e in lst.elts] for lst in lists]
+    F["set_structure.strings"] = [c for c in _consts(set_s) if c in ("HETATM", "ATOM", ".", "?")]
+    fmt = ["".join(c.value for c in n.format_spec.values if isinstance(c, ast.Constant)) for n in ast.walk(set_s)
+           if isinstance(n, ast.FormattedValue) and n.format_spec is not None]
+    F["set_structure.format_specs"] = fmt
+    F["set_structure.box_index"] = [ast.unparse(n.slice) for n in ast.walk(set_s) if isinstance(n, ast.Subscript) and isinstance(n.value, ast.Attribute) and n.value.attr == "box"]
+    return F, helpers
+
+
+def extract_filter(src):
+    tree = ast.parse(src)
+    F = {}
+    occ = _find_func(tree, "filter_highest_occupancy_altloc", lambda f: f.name == "filter_highest_occupancy_altloc")
+    F["occupancy.ops"] = [_cmpop(n.ops[0]) for n in ast.walk(occ) if isinstance(n, ast.Compare) and isinstance(n.left, ast.Name) and isinstance(n.comparators[0], ast.Name)]
+    F["occupancy.init"] = [ast.unparse(n.value) for n in _stmts(occ) if isinstance(n, ast.Assign) and isinstance(n.value, (ast.Constant, ast.UnaryOp)) and not isinstance(getattr(n.value, "value", None), str)]
+    F["occupancy.id_order"] = [n.func.id for n in ast.walk(occ) if isinstance(n, ast.Call) and isinstance(n.func, ast.Name) and n.func.id in ("sorted", "set")]
+    lists = {}
+    for n in tree.body:
+        if isinstance(n, ast.Assign) and isinstance(n.value, ast.List) and n.value.elts and all(isinstance(e, ast.Constant) and isinstance(e.value, str) for e in n.value.elts):
+            vals = [e.value for e in n.value.elts]
+            if "ALA" in vals and "GLY" in vals:
+                lists["aa"] = vals
+            elif "DA" in vals and "DG" in vals:
+                lists["nuc"] = vals
+    if set(lists) != {"aa", "nuc"}:
+        raise ValueError("canonical residue lists not found in filter.py (by content)")
+    return F, lists
+
+
+def extract_bonds_pyx(src):
+    m = re.search(r"\ndef (\w+)\(atoms, residue_starts\):(.*?)\n(?:def |cdef |@)", src + "\ndef ", re.S)
+    body = None
+    for mm in re.finditer(r"\ndef (\w+)\([^)]*\):(.*?)(?=\n(?:def |cdef |@|[A-Z_]+ = ))", src + "\ndef x():", re.S):
+        if "link_type" in mm.group(2) and "O3'" in mm.group(2):
+            body = mm.group(2)
+    if body is None:
+        raise ValueError("bonds.pyx: the function that links consecutive residues (uses link_type and O3') not found")
+    F = {}
+    F["link.res_id_guard"] = re.findall(r"if\s+\w+\[\w+\]\s*-\s*\w+\[\w+\]\s*([<>=!]+)\s*(-?\d+)\s*:", body)
+    F["link.atom_names"] = re.findall(r"=\s*\"([A-Z0-9']+)\"", body)
+    F["link.bond_type"] = re.findall(r"BondType\.([A-Z_]+)", body)
+    F["link.chain_guard"] = re.findall(r"if\s+\w+\[\w+\]\s*(!=|==)\s*\w+\[\w+\]\s*:", body)
+    lists = re.findall(r"=\s*(\[\s*\"[A-Z\- ]+LINKING\"[^\]]*\])", src)
+    pep = [ast.literal_eval(x) for x in lists if "L-PEPTIDE LINKING" in x]
+    nuc = [ast.literal_eval(x) for x in lists if "RNA LINKING" in x]
+    if len(pep) != 1 or len(nuc) != 1:
+        raise ValueError("bonds.pyx: link type lists not found (by content)")
+    return F, pep[0], nuc[0]
+
+
+def helper_names():
+    """Current names of the private helpers of convert.py the adapter calls (found structurally in the imported module)."""
+    if "helpers" not in _state:
+        import inspect
+        from biotite.structure.io.pdbx import convert as conv
+        _state["helpers"] = extract_convert(inspect.getsource(conv))[1]
+    return _state["helpers"]
+
+
 def gen_lean():
     from common import paths
     base = os.path.join(paths.SRC, "biotite/structure")
@@ -200,12 +527,8 @@ def gen_lean():
     bt = {n: int(c) for n, c in re.findall(r"^\s+([A-Z_]+)\s*=\s*(\d+)\s*$", m.group(1), re.M)}
     if len(bt) < 10:
         raise ValueError("BondType members not found")
-    links = {}
-    for nm in ("_PEPTIDE_LINKS", "_NUCLEIC_LINKS"):
-        mm = re.search(r"^%s\s*=\s*(\[.*?\])" % nm, bsrc, re.M | re.S)
-        if not mm:
-            raise ValueError(nm + " not found in bonds.pyx")
-        links[nm] = ast.literal_eval(mm.group(1))
+    pyx_facts, pep_links, nuc_links = extract_bonds_pyx(bsrc)
+    links = {"_PEPTIDE_LINKS": pep_links, "_NUCLEIC_LINKS": nuc_links}
     csrc = open(os.path.join(base, "io/pdbx/convert.py")).read()
     tree = ast.parse(csrc)
     d = _dict_literal(tree, "PDBX_BOND_TYPE_ID_TO_TYPE")
@@ -218,57 +541,27 @@ def gen_lean():
     order_to_type = [(k.value, _bt(v, bt)) for k, v in zip(d.keys, d.values)]
     d = _dict_literal(tree, "COMP_BOND_ORDER_TO_TYPE")
     comp = [((k.elts[0].value, k.elts[1].value), _bt(v, bt)) for k, v in zip(d.keys, d.values)]
-    # the np.isin(bond_array[:, 2], (...)) tuple that masks pdbx_value_order
-    masked = None
-    for n in ast.walk(tree):
-        if isinstance(n, ast.FunctionDef) and n.name == "_set_inter_residue_bonds":
-            for c in ast.walk(n):
-                if isinstance(c, ast.Call) and getattr(c.func, "attr", None) == "isin" and isinstance(c.args[1], ast.Tuple):
-                    masked = sorted(_bt(e, bt) for e in c.args[1].elts)
-    if masked is None:
-        raise ValueError("np.isin(..., (BondType...)) mask not found in _set_inter_residue_bonds")
-    # _filter_canonical_links: the returned expression must be a pure `&` chain (no comparison at the top) whose
-    # first term is `is_peptide_link | is_nucleotide_link`; each of the two is an `&` chain of two np.isin(<list>)
-    # tests and two atom-name comparisons
-    canon_shape = None
-    canon_kinds = []
-    for n in ast.walk(tree):
-        if isinstance(n, ast.FunctionDef) and n.name == "_filter_canonical_links":
-            ret = [c for c in ast.walk(n) if isinstance(c, ast.Return)][-1].value
-
-            def flat(e, out):
-                if isinstance(e, ast.BinOp) and isinstance(e.op, ast.BitAnd):
-                    flat(e.left, out)
-                    flat(e.right, out)
-                else:
-                    out.append(e)
-                return out
-            terms = flat(ret, [])
-            canon_shape = "and-chain" if isinstance(ret, ast.BinOp) and isinstance(ret.op, ast.BitAnd) else type(ret).__name__
-            n_terms = len(terms)
-            n_cmp = sum(1 for t in terms if isinstance(t, ast.Compare))
-            first = terms[0]
-            if not (isinstance(first, ast.BinOp) and isinstance(first.op, ast.BitOr)
-                    and isinstance(first.left, ast.Name) and isinstance(first.right, ast.Name)):
-                raise ValueError("_filter_canonical_links: first term is not `<name> | <name>`")
-            assigned = {a.targets[0].id: a.value for a in ast.walk(n) if isinstance(a, ast.Assign) and isinstance(a.targets[0], ast.Name)}
-            for nm in (first.left.id, first.right.id):
-                parts = flat(assigned[nm], [])
-                lists = [p.args[1].id for p in parts if isinstance(p, ast.Call) and getattr(p.func, "attr", None) == "isin" and isinstance(p.args[1], ast.Name)]
-                consts = [p.comparators[0].value for p in parts if isinstance(p, ast.Compare) and isinstance(p.comparators[0], ast.Constant)]
-                if len(parts) != 4 or len(lists) != 2 or len(set(lists)) != 1 or len(consts) != 2:
-                    raise ValueError(f"_filter_canonical_links: unexpected shape of {nm}")
-                canon_kinds.append((lists[0], consts[0], consts[1]))
-    if canon_shape is None:
-        raise ValueError("_filter_canonical_links not found")
+    conv_facts, conv_helpers = extract_convert(csrc)
+    if len(conv_helpers["order_masked"]) != 1:
+        raise ValueError("np.isin(..., (BondType...)) mask not found in the struct_conn writer")
+    masked = sorted(bt[x] for x in conv_helpers["order_masked"][0])
+    canon_shape, n_terms = conv_facts["canon.shape"][0], int(conv_facts["canon.shape"][1])
+    n_cmp = len(conv_facts["canon.compare_terms"])
     fsrc = open(os.path.join(base, "filter.py")).read()
     ftree = ast.parse(fsrc)
-    lists = {}
-    for n in ftree.body:
-        if isinstance(n, ast.Assign) and getattr(n.targets[0], "id", None) in ("_canonical_aa_list", "_canonical_nucleotide_list"):
-            lists[n.targets[0].id] = ast.literal_eval(n.value)
-    if len(lists) != 2:
-        raise ValueError("canonical residue lists not found in filter.py")
+    filter_facts, flists = extract_filter(fsrc)
+    lists = {"_canonical_aa_list": flists["aa"], "_canonical_nucleotide_list": flists["nuc"]}
+    # which of the two lists of filter.py each link kind tests (resolved through the import alias, then by content)
+    ftop = {n.targets[0].id: ast.literal_eval(n.value) for n in ftree.body
+            if isinstance(n, ast.Assign) and isinstance(n.targets[0], ast.Name) and isinstance(n.value, ast.List)
+            and all(isinstance(e, ast.Constant) for e in n.value.elts)}
+    canon_kinds = []
+    for lname, a1, a2 in conv_helpers["canon_kinds"]:
+        vals = ftop.get(lname)
+        which = "aa" if vals == flists["aa"] else "nuc" if vals == flists["nuc"] else None
+        if which is None:
+            raise ValueError("canonical link filter: the residue list of a link kind is not one of filter.py's canonical lists")
+        canon_kinds.append((which, a1, a2))
     no_alt = None
     for n in ast.walk(ftree):
         if isinstance(n, ast.FunctionDef) and n.name == "filter_first_altloc":
@@ -303,6 +596,12 @@ def gen_lean():
         "/-- (residue list, first atom, second atom) of `is_peptide_link` and `is_nucleotide_link` -/",
         "def canonKinds : List (String × String × String) := " + pairs(canon_kinds, lambda k: f"({_lstr(k[0])}, {_lstr(k[1])}, {_lstr(k[2])})"),
         f"def altlocUsesIsalpha : Bool := {'true' if uses_isalpha else 'false'}",
+        "/-- Structural facts of the source (literals, operators, orders, defaults, exception classes), alpha-normalised:",
+        "no local / private names, no docstrings, comments or message texts. -/",
+        "def facts : List (String × List String) := [",
+        ",\n".join("  (" + _lstr(k) + ", " + pairs([x if isinstance(x, str) else (x[0] + "=" + x[1] if isinstance(x, tuple) else str(x)) for x in (v if isinstance(v, list) else [v])], _lstr) + ")"
+                   for k, v in sorted({**conv_facts, **{"filter." + k: v for k, v in filter_facts.items()}, **{"pyx." + k: [x if isinstance(x, str) else "".join(x) for x in v] for k, v in pyx_facts.items()}}.items())),
+        "]",
         "end BiotiteModel.Gen.C04", ""]
     return {"BiotiteModel/Gen/C04.lean": "\n".join(body)}
 
@@ -1427,7 +1726,8 @@ def _run_impl_inner(case):
                     rs = [] if w[2] in ("_", "-") else w[2].split(";")
                     qa, ra = _keys_arrays(qs), _keys_arrays(rs)
                     res = []
-                    for fn in (conv._find_matches_by_dense_array, conv._find_matches_by_dict):
+                    hn = helper_names()
+                    for fn in (getattr(conv, hn["dense"]), getattr(conv, hn["dict"])):
                         try:
                             r = fn(qa, ra)
                             res.append(",".join(str(int(v)) for v in r) or "_")
